@@ -84,6 +84,20 @@ pub fn run(thorough: bool, seed: u64, _replay: Option<String>) -> Report {
             text.push_str("\u{bb} ");
             text.push_str(&stretch(&mut rng, TEXTS[0].1, 200));
         }
+        // directed (no random choices, so the cases around them stay what they were): a foreign Latin layer *first*, then the
+        // script a legacy code page is made for – that page scores the same target languages in both layers
+        let two_layer_page: Option<(&str, &str)> = if (40..52).contains(&i) {
+            Some([("russian", "windows-1251"), ("russian", "koi8-r"), ("bulgarian", "iso-8859-5"), ("greek", "iso-8859-7"), ("greek", "windows-1253"), ("hebrew", "windows-1255")][i % 6])
+        } else {
+            None
+        };
+        if let Some((native, _)) = two_layer_page {
+            let a = TEXTS[0].1;
+            let b = TEXTS.iter().find(|(n, _)| *n == native).map(|x| x.1).unwrap_or(TEXTS[0].1);
+            let latin: String = a.chars().take(90 + 7 * (i % 5)).collect();
+            let other: String = b.chars().take(160 + 11 * (i % 4)).collect();
+            text = if i % 12 < 6 { format!("{} {}", latin, other) } else { format!("{} {} {}", latin, other, latin) };
+        }
         if i < 15 {
             // directed: a first alphabet layer with >= 3 sufficient scores followed by a second layer
             let firsts = ["russian", "bulgarian", "ukrainian"];
@@ -186,6 +200,11 @@ pub fn run(thorough: bool, seed: u64, _replay: Option<String>) -> Report {
         // a code page that targets particular languages, reading a text it can represent (scores of exactly 0 occur here)
         if i % 4 == 3 {
             let page = *rng.pick(&["iso-8859-7", "windows-1251", "windows-1255", "koi8-r", "iso-8859-5", "windows-1253", "ibm866", "windows-1256", "windows-874"]);
+            if enc_bytes(&text, page).is_some() {
+                enc = page;
+            }
+        }
+        if let Some((_, page)) = two_layer_page {
             if enc_bytes(&text, page).is_some() {
                 enc = page;
             }
@@ -300,7 +319,11 @@ pub fn run(thorough: bool, seed: u64, _replay: Option<String>) -> Report {
         rep.nontrivial(fp(&bytes, &format!("sweep{}", i)));
         // pure cut-off: list(t) = list(0) restricted to score >= t
         if let Some((_, l0)) = lists.first().cloned() {
-            let det_layers = layers_of(&text, &[]);
+            // the layers as the detection scores them: against the target languages of the probed encoding (all
+            // languages of the alphabet for the Unicode encodings) – the known finding is matched on *this* computation
+            let enc_targets: Vec<&'static charset_normalizer_rs::entity::Language> =
+                if charset_normalizer_rs::utils::is_multi_byte_encoding(enc) { vh::mb_encoding_languages(enc) } else { vh::encoding_languages(enc.to_string()) };
+            let det_layers = layers_of(&text, &enc_targets);
             for (t, lt) in &lists {
                 let want: Vec<&(String, f32)> = l0.iter().filter(|(_, s)| s >= t).collect();
                 let same = want.len() == lt.len() && want.iter().all(|w| lt.iter().any(|x| x.0 == w.0 && x.1.to_bits() == w.1.to_bits()));
